@@ -91,6 +91,7 @@ type StructInv struct {
 	TypeName    string
 	Self        string
 	Established []string
+	WritersOnly bool     // `writers T.f : f1, f2`: only a restriction of who may store to the field (no invariant, no verified-writer exemption)
 	Helpers     []string // may write the fields too, but are only called from establishing functions / other helpers (checked)
 	Clause      *Clause
 	Pkg         *types.Package
@@ -336,6 +337,23 @@ func (e *Engine) loadContractFile(path string, pkg *types.Package) error {
 			e.structInvs = append(e.structInvs, si)
 			lastClause = si.Clause
 			pendingPred, cur, curMon = nil, nil, nil
+			continue
+		case kw == "writers":
+			// writers T.field : f1, f2 -- the field is stored to by these functions only (checked mechanically)
+			ci := strings.Index(rest, " : ")
+			dot := strings.Index(rest, ".")
+			if ci < 0 || dot < 0 || dot > ci {
+				return fail(fmt.Errorf("expected: writers T.field : f1, f2"))
+			}
+			si := &StructInv{Pkg: pkg, Self: "self", TypeName: strings.TrimSpace(rest[:dot]), WritersOnly: true}
+			si.Clause = &Clause{Text: "self." + strings.TrimSpace(rest[dot+1:ci]) + " == self." + strings.TrimSpace(rest[dot+1:ci])}
+			for _, f := range splitTop(rest[ci+3:], ',') {
+				if f = strings.TrimSpace(f); f != "" {
+					si.Established = append(si.Established, f)
+				}
+			}
+			e.structInvs = append(e.structInvs, si)
+			pendingPred, cur, lastClause, curMon = nil, nil, nil, nil
 			continue
 		case kw == "conformance":
 			// conformance Iface1, Iface2: the contracts of in-repo implementations of these
